@@ -173,6 +173,11 @@ class Inliner:
                         m = k.methods[name]
                         if self._is_static(m):
                             return m, None, True
+            if isinstance(f.value, ast.Name) and name in self.force:
+                # OtherClass.helper(...): a static helper of another class, inlined only when asked for by name
+                k = self.facts.cls(f.value.id, required=False)
+                if k is not None and name in k.methods and (self._is_static(k.methods[name]) or not k.methods[name].args.args or k.methods[name].args.args[0].arg != 'self'):
+                    return k.methods[name], None, True
             return None
         # module-level function of the same file
         try:
